@@ -278,6 +278,19 @@ pub fn run(ctx: &Ctx) -> i32 {
         }
     });
     col.merge(c);
+    // a coarse grid of latitude codes (multiples of 2^12: the poles - even 0 with odd 98304 / 32768 -
+    // the equator and the quarter points lie on it) x a few longitude codes, both orders
+    for ka in 0..32u32 {
+        for kc in 0..32u32 {
+            for &b in &[0u32, 65536, 12345] {
+                for &d in &[0u32, 65536, 99999] {
+                    for (o1, o2) in [(false, true), (true, false)] {
+                        judge_pair(&mut col, Cpr { odd: o1, yz: ka * 4096, xz: b }, Cpr { odd: o2, yz: kc * 4096, xz: d }, None, "raw_grid");
+                    }
+                }
+            }
+        }
+    }
     let e = [0u32, 1, 65535, 65536, 65537, 131071];
     for &a in &e {
         for &b in &e {
